@@ -328,6 +328,17 @@ func genTicker(t *rapid.T) TickerPlan {
 			e.Dt = rapid.SampledFrom([]int64{0, 1, 2, 3, 5, 10, 25}).Draw(t, "dt") // in tenths of the current d
 		case "reset":
 			e.D, e.J = genDJ(t, "reset")
+			if rapid.IntRange(0, 5).Draw(t, "rejected") == 0 {
+				// a Reset that is rejected (jitter >= d, with a d that is fine in itself and much shorter than most):
+				// it panics as documented and changes nothing - the ticks that follow keep the old spacing
+				e.D = rapid.SampledFrom([]int64{1, 1000}).Draw(t, "rejd")
+				e.J = e.D + rapid.SampledFrom([]int64{0, 5}).Draw(t, "rejj")
+				p.Events = append(p.Events, e)
+				for k := 0; k < 3; k++ {
+					p.Events = append(p.Events, TEvent{Op: "wait"})
+				}
+				continue
+			}
 			e.Dt = rapid.SampledFrom([]int64{0, 0, 1, 2, 2}).Draw(t, "after") // 0: right away; 1: just before the next tick is due; 2: at the very instant it is due
 		case "stop":
 			if i < n-3 {
